@@ -172,9 +172,12 @@ fn examine_mat(pats: &[MatPat], heur: &Heur, hosts: &[Vec<Vec<char>>]) -> bool {
 /// Port-graph sets with heavy sharing: variants of one base graph (other roots, one more node).
 fn gen_big_pgset(rng: &mut Rng) -> Vec<crate::pg::PgPat> {
     use crate::pg::random_connected;
-    let nb = rng.range(3, 5);
+    // sizes are kept small on purpose: 7 variants of a 6-node graph can take minutes to compile
+    // (findings/pg_long_construction_case.txt, DESIGN 9.3 O1), and a stage that does not finish is
+    // reported as a C08 violation
+    let nb = rng.range(3, 4);
     let base = random_connected(rng, nb, 3, false);
-    let np = rng.range(3, 7);
+    let np = rng.range(2, 3);
     let mut pats: Vec<crate::pg::PgPat> = vec![];
     for _ in 0..np {
         match rng.below(4) {
@@ -250,6 +253,12 @@ fn examine_pg(pats: &[crate::pg::PgPat], heur: &Heur, hosts: &[crate::pg::GDesc]
             Ok(n) => n,
             Err(_) => return true,
         };
+        // multi-root sets: build and structure only (their traversal enumerates root candidates per
+        // secondary root and can take exponentially long on an unlucky host: C08Bound's bound is
+        // N^k; F3b makes the comparison meaningless anyway)
+        if !single_root {
+            return false;
+        }
         for host in hosts {
             let g = host.build();
             let canon = |pm: portmatching::PatternMatch<rustc_hash::FxHashMap<PGIndexKey, portgraph::NodeIndex>>| {
@@ -284,7 +293,10 @@ pub fn run(seed: u64, thorough: bool) {
         handles.push(std::thread::spawn(move || {
             std::panic::set_hook(Box::new(|_| {}));
             let mut rng = Rng::new(seed.wrapping_add(1000 * t as u64), "hunt");
-            for _ in 0..per_thread {
+            let trace = std::env::var("PM_TRACE").is_ok();
+            // per-thread case counter: which cases get a matrix / port-graph set must not depend on
+            // how the threads interleave
+            for local in 0..per_thread {
                 let pats = gen_big_set(&mut rng);
                 let heur = match rng.below(4) {
                     0 | 1 => Heur::Default,
@@ -299,7 +311,7 @@ pub fn run(seed: u64, thorough: bool) {
                     }
                 }
                 // every eighth case: a port-graph set with heavy sharing
-                if cases.load(Ordering::Relaxed) % 8 == 0 {
+                if local % 8 == 0 {
                     let gpats = gen_big_pgset(&mut rng);
                     let ghosts: Vec<crate::pg::GDesc> = (0..2)
                         .map(|_| {
@@ -308,6 +320,15 @@ pub fn run(seed: u64, thorough: bool) {
                         })
                         .collect();
                     cases.fetch_add(1, Ordering::Relaxed);
+                    if trace {
+                        let mut l = crate::proto::Line::new("TRACE E2E");
+                        l.tok("G");
+                        crate::pg::enc_pgpats(&mut l, &gpats);
+                        l.tok(1);
+                        heur.encode(&mut l);
+                        l.list(&ghosts, |l, h| h.encode(l));
+                        eprintln!("{} [thread {} case {}]", l.0.trim(), t, local);
+                    }
                     if examine_pg(&gpats, &heur, &ghosts) {
                         if hits.fetch_add(1, Ordering::Relaxed) < 20 {
                             crate::pg::pg_case("E2E", &gpats, true, &heur, &ghosts);
@@ -315,7 +336,7 @@ pub fn run(seed: u64, thorough: bool) {
                     }
                 }
                 // every fourth case: a matrix set
-                if cases.load(Ordering::Relaxed) % 4 == 0 {
+                if local % 4 == 0 {
                     let mpats = gen_big_matset(&mut rng);
                     let mhosts: Vec<Vec<Vec<char>>> =
                         (0..2).map(|_| crate::e2e::planted_mat_host(&mut rng, &mpats)).collect();
